@@ -271,6 +271,7 @@ func cmdSessions(args []string) {
 		for i := 0; i < 2; i++ { // counter grammars with abandoning actions
 			cases = append(cases, GenSessionProbe(rp, fmt.Sprintf("sprobe-%d-%d", p.seed, i)))
 		}
+		cases = append(cases, genNestProbe(rp, fmt.Sprintf("nprobe-%d", p.seed)))
 	}
 	var kept []*Case
 	for _, c := range cases {
@@ -627,4 +628,30 @@ func sessionInputs(c *Case, r *rand.Rand, n int) [][]int {
 		}
 	}
 	return res
+}
+
+
+// genNestProbe: an expression grammar in which EVERY parse nests to depth 2: the action of T -> n starts a nested
+// parse of "n + n", whose own reductions of T -> n nest once more (innermost input "( n )").  With several parses in one
+// process, nested parsers are started again and again after earlier nested parsers have finished.
+func genNestProbe(r *rand.Rand, id string) *Case {
+	c := &Case{ID: id, Family: "nestprobe", Start: "S", Types: map[string]string{}}
+	c.Tokens = []Tok{{Name: "n"}, {Name: "+", Lit: true}, {Name: "(", Lit: true}, {Name: ")", Lit: true}}
+	c.Rules = []Rule{
+		{Lhs: "S", Rhs: []string{"S", "'+'", "T"}},
+		{Lhs: "S", Rhs: []string{"T"}},
+		{Lhs: "T", Rhs: []string{"n"}},
+		{Lhs: "T", Rhs: []string{"'('", "S", "')'"}},
+	}
+	Valuate(c, r, true)
+	ord := map[string]int{}
+	for i, t := range c.Terminals() {
+		ord[t] = i + 1
+	}
+	c.NestRule = 3
+	c.NestInput = []int{ord["n"], ord["'+'"], ord["n"]}
+	// the innermost input starts differently from the input of the parse around it: two parsers that (wrongly) share
+	// their stack storage leave different states in it
+	c.NestInput2 = []int{ord["'('"], ord["n"], ord["')'"]}
+	return c
 }
